@@ -217,10 +217,12 @@ def build(tier, seed):
             from orquestra.quantum.circuits import _builtin_gates as RB
             rng = random.Random(seed * 1000 + hash(name) % 997)
             _, k, pn = entry
-            n_pts = 1 if k == 0 else 3
+            n_pts = 1 if k == 0 else 5
             cases = 0
-            for _ in range(n_pts):
-                env = {p.strip("_"): round(rng.uniform(-3, 3), 3) for p in pn}
+            for pt in range(n_pts):
+                # the last points are large / integer-valued: numeric-only code paths (angle wrapping, int vs float) differ there
+                lo, hi = ((-3, 3), (-3, 3), (-3, 3), (6.5, 14.0), (-14.0, -6.5))[pt]
+                env = {p.strip("_"): (round(rng.uniform(lo, hi), 3) if pt != 2 else rng.randint(-9, 9)) for p in pn}
                 try:
                     g = getattr(RB, name) if k == 0 else getattr(RB, name)(*[env[p.strip("_")] for p in pn])
                     real = np.array(g.matrix.tolist(), dtype=complex)
@@ -233,8 +235,20 @@ def build(tier, seed):
                 mine = np.array([[x.evalf_at(sub) for x in row] for row in m.m], dtype=complex)
                 cases += 1
                 if real.shape != mine.shape or not np.allclose(real, mine, atol=1e-9):
-                    return core.Outcome("error", "translation-validation", 0.0,
-                                        f"Engine M's reading of {name} disagrees with the native value at {env}: {mine} vs {real}")
+                    code = f"""
+import numpy as np, sympy
+from orquestra.quantum.circuits import _builtin_gates as B
+vals = {[env[p.strip('_')] for p in pn]!r}
+syms = sympy.symbols('p0:%d' % len(vals))
+num = np.array(B.{name}(*vals).matrix.tolist(), dtype=complex)
+symb = np.array(B.{name}(*syms).matrix.subs(dict(zip(syms, vals))).evalf().tolist(), dtype=complex)
+OK = bool(np.allclose(num, symb, atol=1e-9))
+OBSERVED = f"matrix at numeric parameters differs from the symbolic matrix evaluated there by {{abs(num - symb).max()}}"
+"""
+                    rep = __import__("vfw.replay", fromlist=["x"]).replay_dict(code, "numeric and symbolic evaluation agree")
+                    return core.bounded_fail(f"{name}: the matrix computed for the numeric parameters {env} differs from the symbolic matrix "
+                                             f"(proved unitary / group law) evaluated there: numeric-only code path?", cex={"parameters": env},
+                                             replay=rep, finding_key=f"{name}.numeric-vs-symbolic")
             return core.bounded_pass(f"{name}: native factory value equals Engine M's value at {cases} sample point(s)", cases,
                                      backend="native-sampling")
         return run
